@@ -2,7 +2,7 @@
 from vf.hx import *  # noqa
 
 
-def suspend_protocol(n, d0, d1, d2, ram, s, s2, dB, rB, K=12, reassign=True, want=""):
+def suspend_protocol(n, d0, d1, d2, ram, s, s2, dB, rB, K=12, reassign=True, tps=1, want=""):
     """Container A (n operators, durations d0..d2 ticks, allocation `ram` GB, 1 CPU) and a
     bystander container B (1 operator, dB ticks, rB GB) start at tick 0 in a 200 GB / 4 CPU pool.
     Suspend(A) is requested in the scheduling phase of tick s and again at tick s2 (-1: never).
@@ -10,10 +10,12 @@ def suspend_protocol(n, d0, d1, d2, ram, s, s2, dB, rB, K=12, reassign=True, wan
     reset_globals()
     durs = [d0, d1, d2][:n]
     # commands go through the Executor (the public entry point), which routes them to its pool
-    ex = Executor(num_pools=1, cpus_per_pool=4, ram_gb_per_pool=200, ticks_per_second=1)
+    # durations d* are in ticks; at tps 2 or 4 the seconds value d/tps is exact in binary64
+    ex = Executor(num_pools=1, cpus_per_pool=4, ram_gb_per_pool=200, ticks_per_second=tps)
     pool = ex.pools[0]
-    pa, opsA = mk_pipeline("pa", 3, n, chain_bits(n), [[seg_ticks(durs[j], 1)] for j in range(n)])
-    pb, opsB = mk_pipeline("pb", 3, 1, [], [[seg_ticks(dB, 1)]])
+    sec = (lambda d: d) if tps == 1 else (lambda d: d / tps)
+    pa, opsA = mk_pipeline("pa", 3, n, chain_bits(n), [[seg_ticks(sec(durs[j]), 1)] for j in range(n)])
+    pb, opsB = mk_pipeline("pb", 3, 1, [], [[seg_ticks(sec(dB), 1)]])
     aA = Assignment(ops=opsA, cpu=1, ram=ram, priority=Priority.BATCH_PIPELINE, pool_id=0, pipeline_id="pa")
     aB = Assignment(ops=opsB, cpu=2, ram=rB, priority=Priority.BATCH_PIPELINE, pool_id=0, pipeline_id="pb")
     # model ----------------------------------------------------------------
@@ -22,7 +24,7 @@ def suspend_protocol(n, d0, d1, d2, ram, s, s2, dB, rB, K=12, reassign=True, wan
     for j in range(n):
         acc = acc + durs[j]
         ends.append(acc - 1)
-    W = ram // 20
+    W = (ram * tps) // 20
     if W < 1:
         W = 1
     state = "running"    # running | suspending | suspended | finished
